@@ -1,3 +1,303 @@
-import KoordVerif.Model.C07
+import KoordVerif.Proofs.C07Base
+/-
+C07 — property theorems (DESIGN.md §4 C07).  All amounts are read value-wise: `drVal d minor k` is the
+amount of resource dimension `k` on device `minor`, a missing map entry or key counting as 0.
+A history is any list of `Op`s (updateCacheUsed add / remove with CALLER-SUPPLIED allocations, inventory
+refresh) replayed from the empty ledger of one device type.
+-/
 namespace KoordVerif.C07
+
+def DRNonneg (d : DevRes) : Prop := ∀ m k, 0 ≤ drVal d m k
+
+/-- amounts carried by an operation are non-negative (quantities of the Device CR / the allocation annotation) -/
+def OpWF : Op → Prop
+  | .add _ al => AlNonneg al
+  | .remove _ al => AlNonneg al
+  | .refresh nt => DRNonneg nt
+
+/-- free = (total − used)⁺ on every device and dimension -/
+def FreeEq (s : TState) : Prop :=
+  ∀ m k, drVal s.free m k = max 0 (drVal s.total m k - drVal s.used m k)
+
+structure Inv1 (s : TState) : Prop where
+  tpos : DRNonneg s.total
+  upos : DRNonneg s.used
+  free : FreeEq s
+
+theorem inv1_empty : Inv1 TState.empty := by
+  refine ⟨?_, ?_, ?_⟩ <;> intro m k <;> simp [TState.empty, drVal, drGetD, drGet, rlVal_nil]
+
+theorem inv1_resetFree (s : TState) (ht : DRNonneg s.total) (hu : DRNonneg s.used) : Inv1 (resetFree s) := by
+  refine ⟨?_, ?_, ?_⟩
+  · intro m k; rw [resetFree_total_val]; exact ht m k
+  · intro m k; rw [resetFree_used]; exact hu m k
+  · intro m k
+    rw [resetFree_free_val s m k (ht m k) (hu m k), resetFree_total_val, resetFree_used]
+
+theorem inv1_setPods (s : TState) (x : List (Nat × DevRes)) (h : Inv1 s) : Inv1 { s with pods := x } :=
+  ⟨h.tpos, h.upos, h.free⟩
+
+/-! ### 1. free = (total − used)⁺ always -/
+
+theorem step_preserves_inv1 (s : TState) (op : Op) (h : Inv1 s) (hop : OpWF op) : Inv1 (step s op) := by
+  cases op with
+  | add p al =>
+    simp only [step, addT]
+    split
+    · exact h
+    · apply inv1_setPods
+      apply inv1_resetFree
+      · exact h.tpos
+      · intro m k
+        show 0 ≤ drVal (usedAdd s.used al) m k
+        rw [usedAdd_val]
+        have := alSum_nonneg al hop m k
+        have := h.upos m k
+        omega
+  | remove p al =>
+    simp only [step, removeT]
+    split
+    · exact h
+    · apply inv1_setPods
+      apply inv1_resetFree
+      · exact h.tpos
+      · intro m k
+        show 0 ≤ drVal (usedSub s.used al) m k
+        rw [usedSub_val al hop _ _ _ (h.upos m k)]
+        omega
+  | refresh nt =>
+    simp only [step, refreshT]
+    apply inv1_resetFree
+    · exact hop
+    · exact h.upos
+
+theorem run_inv1 (ops : List Op) : ∀ (s : TState), Inv1 s → (∀ op ∈ ops, OpWF op) → Inv1 (run s ops) := by
+  induction ops with
+  | nil => intro s h _; exact h
+  | cons op rest ih =>
+    intro s h hw
+    simp only [run, List.foldl]
+    exact ih _ (step_preserves_inv1 s op h (hw op (by simp))) (fun o ho => hw o (by simp [ho]))
+
+/-- **free_eq**: after ANY history (any interleaving of adds, removals with arbitrary caller-supplied
+    allocations, duplicate events, inventory refreshes) free = max 0 (total − used) on every device and
+    dimension, and total, used ≥ 0. -/
+theorem free_eq (ops : List Op) (hw : ∀ op ∈ ops, OpWF op) (m k : Nat) :
+    let s := run TState.empty ops
+    drVal s.free m k = max 0 (drVal s.total m k - drVal s.used m k) ∧
+      0 ≤ drVal s.used m k ∧ 0 ≤ drVal s.total m k ∧ drVal s.free m k ≤ drVal s.total m k := by
+  have h := run_inv1 ops _ inv1_empty hw
+  have h1 := h.free m k
+  have h2 := h.upos m k
+  have h3 := h.tpos m k
+  refine ⟨h1, h2, h3, ?_⟩
+  omega
+
+/-! ### 6. duplicate add / removal of an absent pod are no-ops -/
+
+theorem dup_add_noop (s : TState) (p : Nat) (al : List (Nat × RL)) (h : hasPod s p = true) :
+    addT s p al = s := by simp [addT, h]
+
+theorem remove_absent_noop (s : TState) (p : Nat) (al : List (Nat × RL)) (h : hasPod s p = false) :
+    removeT s p al = s := by simp [removeT, h]
+
+example : hasPod (addT TState.empty 7 [(0, [some 50])]) 7 = true := by decide
+
+/-! ### 3. over-commit: who can create it -/
+
+/-- a removal never increases any in-use amount -/
+theorem remove_used_le (s : TState) (p : Nat) (al : List (Nat × RL)) (hal : AlNonneg al)
+    (hu : DRNonneg s.used) (m k : Nat) :
+    drVal (removeT s p al).used m k ≤ drVal s.used m k := by
+  simp only [removeT]
+  split
+  · omega
+  · show drVal (usedSub s.used al) m k ≤ _
+    rw [usedSub_val al hal _ _ _ (hu m k)]
+    have := alSum_nonneg al hal m k
+    have := hu m k
+    omega
+
+/-- an inventory refresh leaves `used` alone and installs the new totals: the device is over-committed
+    afterwards IFF the new total is below what is in use (the branch the truncated subtraction hides in `free`). -/
+theorem refresh_no_overcommit_iff (s : TState) (nt : DevRes) (m k : Nat) :
+    drVal (refreshT s nt).used m k ≤ drVal (refreshT s nt).total m k ↔ drVal s.used m k ≤ drVal nt m k := by
+  simp only [refreshT, resetFree_total_val, resetFree_used]
+
+theorem refresh_used_unchanged (s : TState) (nt : DevRes) : (refreshT s nt).used = s.used := rfl
+
+/-! ### 4./5. the allocator -/
+
+def KeysNodup (d : DevRes) : Prop := (d.map (·.1)).Nodup
+
+theorem drGet_of_mem (d : DevRes) (h : KeysNodup d) (m : Nat) (f : RL) (hm : (m, f) ∈ d) :
+    drGet d m = some f := by
+  induction d with
+  | nil => simp at hm
+  | cons p r ih =>
+    obtain ⟨k, w⟩ := p
+    simp only [KeysNodup, List.map_cons, List.nodup_cons] at h
+    simp only [List.mem_cons, Prod.mk.injEq] at hm
+    simp only [drGet]
+    rcases hm with ⟨h1, h2⟩ | hm
+    · simp [h1, h2]
+    · have : k ≠ m := by
+        intro hk; subst hk
+        exact h.1 (List.mem_map.mpr ⟨(k, f), hm, rfl⟩)
+      simp [this, ih h.2 hm]
+
+theorem effMax_ge (a : AllocReq) : effDesired a ≤ effMax a := by
+  unfold effMax; simp only []; split <;> split <;> omega
+
+theorem insCand_perm (le : Nat × RL → Nat × RL → Bool) (x : Nat × RL) (l : DevRes) :
+    (insCand le x l).Perm (x :: l) := by
+  induction l with
+  | nil => exact List.Perm.refl _
+  | cons y ys ih =>
+    simp only [insCand]
+    split
+    · exact List.Perm.refl _
+    · exact (ih.cons y).trans (List.Perm.swap x y ys)
+
+theorem sortCands_perm (free : DevRes) (pref : List Nat) : (sortCands free pref).Perm free := by
+  induction free with
+  | nil => exact List.Perm.refl _
+  | cons x xs ih =>
+    simp only [sortCands, List.foldr] at *
+    exact (insCand_perm _ x _).trans (ih.cons x)
+
+/-- the request asks only for resources the chosen device exposes (holds for homogeneous inventories; without it
+    `LessThanOrEqual` silently accepts the missing key — see `missing_dimension_counterexample`) -/
+def Covered (req f : RL) : Prop := ∀ k, (rlAt req k).isSome → (rlAt f k).isSome
+
+/-- **alloc_sound** (partial only in that the map-ness of `free`, `KeysNodup`, is a hypothesis here, not yet an
+    invariant proved over histories): a successful allocation returns between desired and maxDesired
+    DISTINCT minors, each permitted, each a non-zero device whose free amount covers the request. -/
+theorem alloc_sound_partial (s : TState) (a : AllocReq) (ms : List Nat) (hk : KeysNodup s.free)
+    (h : allocate s a = some ms) :
+    effDesired a ≤ ms.length ∧ ms.length ≤ effMax a ∧ ms.Nodup ∧
+    ∀ m ∈ ms, (a.required = [] ∨ m ∈ a.required) ∧
+      ∃ f, drGet s.free m = some f ∧ rlIsZero f = false ∧ rlLeq a.req f = true ∧
+        (Covered a.req f → ∀ k, 0 ≤ rlVal a.req k → 0 ≤ rlVal f k → rlVal a.req k ≤ rlVal f k) := by
+  unfold allocate allocateFrom at h
+  simp only [] at h
+  split at h
+  · exact absurd h (by simp)
+  · rename_i hlen
+    injection h with h
+    subst h
+    have hperm := sortCands_perm s.free a.preferred
+    refine ⟨by omega, by simp [List.length_take]; omega, ?_, ?_⟩
+    · have hk' : (s.free.map (fun p : Nat × RL => p.1)).Nodup := hk
+      have h1 : ((sortCands s.free a.preferred).map (fun p : Nat × RL => p.1)).Nodup :=
+        (hperm.map (fun p : Nat × RL => p.1)).nodup_iff.mpr hk'
+      have h2 : (((sortCands s.free a.preferred).filter (qualifies a)).map (·.1)).Nodup :=
+        List.Nodup.sublist (List.Sublist.map _ List.filter_sublist) h1
+      exact List.Nodup.sublist (List.take_sublist _ _) h2
+    · intro m hm
+      have hm' := List.mem_of_mem_take hm
+      obtain ⟨⟨m', f⟩, hmem, rfl⟩ := List.mem_map.mp hm'
+      obtain ⟨hin, hq⟩ := List.mem_filter.mp hmem
+      have hin' : (m', f) ∈ s.free := hperm.mem_iff.mp hin
+      simp only [qualifies, Bool.and_eq_true, Bool.or_eq_true, Bool.not_eq_true'] at hq
+      obtain ⟨⟨hreq, hz⟩, hle⟩ := hq
+      refine ⟨?_, f, drGet_of_mem _ hk _ _ hin', hz, hle, ?_⟩
+      · rcases hreq with h | h
+        · left; simpa using h
+        · right; simpa using h
+      · intro hcov k ha hf
+        rcases rlLeq_val a.req f k hle (hcov k) ha hf with h | h <;> omega
+
+/-- **alloc_complete**: the allocator fails only when fewer than `desired` candidates qualify
+    (permitted minor, non-zero free, request ≤ free). -/
+theorem alloc_complete (s : TState) (a : AllocReq) (h : allocate s a = none) :
+    numQualifying s a < effDesired a := by
+  unfold allocate allocateFrom at h
+  simp only [] at h
+  split at h
+  · rename_i hlen
+    have hperm := sortCands_perm s.free a.preferred
+    have hl : ((sortCands s.free a.preferred).filter (qualifies a)).length = numQualifying s a :=
+      (hperm.filter _).length_eq
+    have := effMax_ge a
+    simp only [List.length_take, List.length_map] at hlen
+    omega
+  · exact absurd h (by simp)
+
+/-- … and then no set of `desired` distinct qualifying devices exists. -/
+theorem alloc_complete_sets (s : TState) (a : AllocReq) (hk : KeysNodup s.free) (h : allocate s a = none)
+    (S : List Nat) (hS : S.Nodup)
+    (hq : ∀ m ∈ S, ∃ f, (m, f) ∈ s.free ∧ qualifies a (m, f) = true) : S.length < effDesired a := by
+  have hc := alloc_complete s a h
+  have hsub : S ⊆ (s.free.filter (qualifies a)).map (·.1) := by
+    intro m hm
+    obtain ⟨f, hin, hqq⟩ := hq m hm
+    exact List.mem_map.mpr ⟨(m, f), List.mem_filter.mpr ⟨hin, hqq⟩, rfl⟩
+  have hlen : S.length ≤ ((s.free.filter (qualifies a)).map (·.1)).length :=
+    List.Nodup.length_le_of_subset hS hsub
+  simp only [List.length_map] at hlen
+  unfold numQualifying at hc
+  omega
+
+/-! ### 3. allocate-then-commit never over-commits -/
+
+theorem alSum_allocList (a : AllocReq) (ms : List Nat) (hn : ms.Nodup) (m k : Nat) :
+    alSum (allocList a ms) m k = if m ∈ ms then rlVal a.req k else 0 := by
+  induction ms with
+  | nil => simp [allocList, alSum]
+  | cons x xs ih =>
+    simp only [List.nodup_cons] at hn
+    simp only [allocList, List.map_cons, alSum] at *
+    rw [ih hn.2]
+    by_cases h : x = m
+    · subst h; simp [hn.1]
+    · simp [h, Ne.symm h]
+
+/-- **commit_no_overcommit**: committing the allocator's own result keeps `used ≤ total` wherever it held. -/
+theorem commit_no_overcommit_partial (s : TState) (a : AllocReq) (ms : List Nat) (p : Nat)
+    (hinv : Inv1 s) (hk : KeysNodup s.free) (h : allocate s a = some ms)
+    (hreq : ∀ k, 0 ≤ rlVal a.req k)
+    (hcov : ∀ m f, drGet s.free m = some f → Covered a.req f)
+    (m k : Nat) (hle : drVal s.used m k ≤ drVal s.total m k) :
+    drVal (addT s p (allocList a ms)).used m k ≤ drVal (addT s p (allocList a ms)).total m k := by
+  obtain ⟨_, _, hnd, hall⟩ := alloc_sound_partial s a ms hk h
+  simp only [addT]
+  split
+  · exact hle
+  · show drVal (resetFree { s with used := usedAdd s.used (allocList a ms) }).used m k ≤
+      drVal (resetFree { s with used := usedAdd s.used (allocList a ms) }).total m k
+    rw [resetFree_total_val, resetFree_used]
+    show drVal (usedAdd s.used (allocList a ms)) m k ≤ drVal s.total m k
+    rw [usedAdd_val, alSum_allocList a ms hnd]
+    by_cases hm : m ∈ ms
+    · obtain ⟨_, f, hf, _, hleq, hval⟩ := hall m hm
+      have hfv : drVal s.free m k = rlVal f k := by simp [drVal, drGetD, hf]
+      have hfe := hinv.free m k
+      have hu := hinv.upos m k
+      have ht := hinv.tpos m k
+      have hf0 : 0 ≤ rlVal f k := by rw [← hfv, hfe]; omega
+      have := hval (hcov m f hf) k (hreq k) hf0
+      simp only [hm, if_true]
+      by_cases hz : rlVal a.req k = 0
+      · omega
+      · have : 0 < rlVal a.req k := by have := hreq k; omega
+        omega
+    · simp [hm]; exact hle
+
+/-! ### the quirk behind `Covered` -/
+
+/-- a device that does not expose a requested resource at all still qualifies: `LessThanOrEqual` skips the key -/
+theorem missing_dimension_counterexample :
+    allocate { TState.empty with free := [(0, [some 100, none])] }
+      { req := [some 10, some 5], desired := 1, npcie := 0, required := [], preferred := [] } = some [0] := by
+  decide
+
+/-! ### non-vacuity -/
+
+example : allocate (refreshT TState.empty [(0, [some 100]), (1, [some 100]), (2, [none])])
+    { req := [some 60], desired := 2, npcie := 0, required := [], preferred := [1] } = some [1, 0] := by decide
+
+example : allocate (addT (refreshT TState.empty [(0, [some 100]), (1, [some 100])]) 1 [(0, [some 50])])
+    { req := [some 60], desired := 2, npcie := 0, required := [], preferred := [] } = none := by decide
+
 end KoordVerif.C07
